@@ -388,6 +388,28 @@ pub(crate) mod k {
         core::mem::forget(v);
         None
     }
+    /// CPU feature detection (inline `cpuid` asm is not modelled): report "no extensions", so the
+    /// portable software implementations of aes/sha1 are the code that is encoded.
+    #[cfg(target_arch = "x86_64")]
+    pub fn stub_cpuid(_leaf: u32) -> core::arch::x86_64::CpuidResult {
+        core::arch::x86_64::CpuidResult { eax: 0, ebx: 0, ecx: 0, edx: 0 }
+    }
+    #[cfg(target_arch = "x86_64")]
+    pub fn stub_cpuid_count(_leaf: u32, _sub: u32) -> core::arch::x86_64::CpuidResult {
+        core::arch::x86_64::CpuidResult { eax: 0, ebx: 0, ecx: 0, edx: 0 }
+    }
+    /// PBKDF2 (1000 HMAC-SHA1 rounds per block) is environment: an arbitrary derived key.
+    #[cfg(feature = "aes-crypto")]
+    pub fn stub_pbkdf2_any<PRF>(_password: &[u8], _salt: &[u8], _rounds: u32, res: &mut [u8])
+    where
+        PRF: hmac::digest::KeyInit + hmac::digest::Update + hmac::digest::FixedOutput + Clone + Sync,
+    {
+        let mut i = 0;
+        while i < res.len() {
+            res[i] = kani::any();
+            i += 1;
+        }
+    }
     /// The wall clock is environment: an arbitrary instant.
     #[cfg(feature = "time")]
     pub fn stub_now_utc() -> time::OffsetDateTime {
